@@ -1,7 +1,8 @@
 #!/usr/bin/env python3
 """Regression of the checks against the seeded changes: for each /verif/seeded/<id>_mN apply patch.diff to /repo, run
 the listed checks (quick tier), record whether a VIOLATION for that property's check was printed, and restore /repo.
-usage: run_seeded.py [<id>_mN ...]      writes /verif/seeded/RESULTS.md.  Never run concurrently with other checks."""
+usage: run_seeded.py [--worktree] [<id>_mN ...]      writes /verif/seeded/RESULTS.md.  Without --worktree never run concurrently
+with other checks; with it the patch is applied in a scratch worktree and /repo stays untouched."""
 import os, re, subprocess, sys, time, json
 CATCH = {  # which checks are expected to report each change (first = primary)
     'C01_m1': ['C01'], 'C01_m2': ['C02'], 'C02_m1': ['C02'], 'C02_m2': ['C01'], 'C03_m1': ['C03', 'C05'], 'C03_m2': ['C03', 'C18'],
@@ -24,6 +25,8 @@ CATCH = {  # which checks are expected to report each change (first = primary)
     # fourth round (changes that need something specific to manifest: lengths, sequences, thresholds, byte strings)
     'C02_m5': ['C02'], 'C04_m5': ['C04'], 'C05_m5': ['C05'], 'C07_m5': ['C07'], 'C09_m5': ['C09'], 'C10_m5': ['C10'],
     'C12_m5': ['C12'], 'C14_m5': ['C14'], 'C15_m5': ['C15'], 'C16_m5': ['C16'], 'C18_m5': ['C18'], 'C20_m5': ['C20'],
+    'C01_m5': ['C01'], 'C03_m5': ['C03'], 'C06_m5': ['C06'], 'C08_m5': ['C08'], 'C11_m5': ['C11'], 'C13_m5': ['C13'],
+    'C17_m5': ['C17'], 'C19_m5': ['C19'],
 }
 
 
@@ -32,10 +35,37 @@ def sh(cmd, timeout=3600):
     return p.returncode, p.stdout.decode('utf-8', 'replace')
 
 
+def in_worktree(n):
+    """same as the loop in main(), but /repo is left alone: the patch is applied in a scratch worktree of /repo's HEAD
+    and the check is pointed at it (PHQV_REPO); safe to run next to other checks"""
+    import tempfile, shutil
+    rows = []
+    wt = tempfile.mkdtemp(prefix='seedrun-', dir='/tmp')
+    os.rmdir(wt)
+    try:
+        rc, out = sh('git -C /repo worktree add --detach %s HEAD && git -C %s apply /verif/seeded/%s/patch.diff' % (wt, wt, n))
+        if rc != 0:
+            return [(n, '-', 'patch does not apply', 0)]
+        for c in CATCH[n]:
+            t0 = time.time()
+            rc, out = sh('cd /verif && PHQV_REPO=%s VERIF_TIER=quick PHQV_EVIDENCE_DIR=/tmp/seeded_evidence_%s timeout 3000 bin/phqv check %s' % (wt, n, c))
+            viol = [l for l in out.split('\n') if l.startswith('VIOLATION property=%s ' % c)]
+            summ = next((l for l in out.split('\n') if l.startswith(c + ':')), '')
+            rows.append((n, c, 'CAUGHT (%d violation lines, exit %d)' % (len(viol), rc) if viol and rc == 1 else 'MISSED (exit %d) %s' % (rc, summ), round(time.time() - t0)))
+            print(rows[-1], flush=True)
+    finally:
+        sh('git -C /repo worktree remove --force %s' % wt)
+        shutil.rmtree(wt, ignore_errors=True)
+        shutil.rmtree('/tmp/seeded_evidence_%s' % n, ignore_errors=True)
+    return rows
+
+
 def main():
+    use_wt = '--worktree' in sys.argv
+    sys.argv = [a for a in sys.argv if a != '--worktree']
     names = sys.argv[1:] or sorted(CATCH)
     rows = []
-    for n in names:
+    for n in ([] if use_wt else names):
         d = '/verif/seeded/' + n
         rc, out = sh('git -C /repo status --porcelain --untracked-files=no')
         if out.strip():
@@ -53,6 +83,9 @@ def main():
                 print(rows[-1], flush=True)
         finally:
             sh('git -C /repo checkout -- .')
+    if use_wt:
+        for n in names:
+            rows += in_worktree(n)
     prev = {}
     if sys.argv[1:] and os.path.exists('/verif/seeded/RESULTS.md'):
         for l in open('/verif/seeded/RESULTS.md'):
